@@ -37,6 +37,12 @@ type APICase struct {
 	// ViaRead: that intermediate write goes to a buffer, is read back with ReadFrom and the
 	// remaining tracks are added to the value that was read (read - modify - write).
 	ViaRead bool `json:",omitempty"`
+	// ToggleRS: NoRunningStatus has the opposite value until the intermediate write and gets its
+	// final value (NoRunningStatus above) afterwards: the option must be honoured per write.
+	ToggleRS bool `json:",omitempty"`
+	// FailFirstAt > 0: before anything else is written, the finished value is written once to a
+	// destination that fails after FailFirstAt-1 bytes; the value must still write correctly afterwards.
+	FailFirstAt int `json:",omitempty"`
 }
 
 // Model is the pure model of what the history means (never consults the library).
@@ -127,6 +133,9 @@ func BuildLib(c APICase) *smf.SMF {
 		s.TimeFormat = TimeFormatOf(c.Division)
 	}
 	s.NoRunningStatus = c.NoRunningStatus
+	if c.ToggleRS && c.WriteAfter > 0 {
+		s.NoRunningStatus = !c.NoRunningStatus
+	}
 	for i, to := range c.Tracks {
 		if c.WriteAfter > 0 && i == c.WriteAfter {
 			if c.ViaRead {
@@ -140,6 +149,7 @@ func BuildLib(c APICase) *smf.SMF {
 			} else {
 				s.WriteTo(io.Discard)
 			}
+			s.NoRunningStatus = c.NoRunningStatus
 		}
 		var tr smf.Track
 		for _, op := range to.Ops {
@@ -156,7 +166,22 @@ func BuildLib(c APICase) *smf.SMF {
 		}
 		s.Add(tr)
 	}
+	if c.FailFirstAt > 0 {
+		s.WriteTo(&failAfter{budget: c.FailFirstAt - 1})
+	}
 	return s
+}
+
+type failAfter struct{ budget int }
+
+func (w *failAfter) Write(p []byte) (int, error) {
+	if len(p) <= w.budget {
+		w.budget -= len(p)
+		return len(p), nil
+	}
+	n := w.budget
+	w.budget = 0
+	return n, io.ErrShortWrite
 }
 
 // ChannelMessage draws a channel message through the public constructors. prev (if a
@@ -311,6 +336,10 @@ func API(t *rapid.T, o APIOpts) APICase {
 	if ntr >= 2 && rapid.IntRange(0, 3).Draw(t, "writeInBetween?") == 0 {
 		c.WriteAfter = rapid.IntRange(1, ntr-1).Draw(t, "writeAfter")
 		c.ViaRead = rapid.Bool().Draw(t, "viaRead")
+		c.ToggleRS = rapid.IntRange(0, 2).Draw(t, "toggleRunningStatus") == 0
+	}
+	if rapid.IntRange(0, 5).Draw(t, "failedWriteFirst?") == 0 {
+		c.FailFirstAt = rapid.OneOf(rapid.IntRange(1, 40), rapid.IntRange(1, 400)).Draw(t, "failFirstAt")
 	}
 	return c
 }
@@ -369,6 +398,12 @@ func APIClasses(c APICase) (classes []string, nontrivial bool) {
 	}
 	if c.NoRunningStatus {
 		set["no-running-status"] = true
+	}
+	if c.FailFirstAt > 0 {
+		set["write-after-failed-write"] = true
+	}
+	if c.ToggleRS {
+		set["running-status-option-toggled"] = true
 	}
 	if c.WriteAfter > 0 && c.ViaRead {
 		set["read-modify-write"] = true
